@@ -55,21 +55,25 @@ def correspond(ctx):
 
 
 # ---------------------------------------------------------------------------------------------------
-def t_laminar2d(cls, N, L, kinj, gamma, order, nsteps, nu=0.05, drag=-0.1, dt=0.1):
+def t_laminar2d(cls, N, L, kinj, gamma, order, nsteps, nu=0.05, drag=-0.1, dt=0.1, b=1.0, a0=0.0, j0=1):
+    """from the laminar state a0 cos(2 pi j0 x_1 / L) (rest if a0 = 0), with convection scale b: the convection term vanishes on the laminar
+    subspace, so every mode follows u' = sigma_j u + f_j exactly (the result must not depend on b)"""
     ex, jnp = _ex()
     import exponax.stepper.generic as G
     if cls == "KolmogorovFlowVorticity":
-        s = ex.stepper.KolmogorovFlowVorticity(2, L, N, dt, diffusivity=nu, drag=drag, injection_mode=kinj, injection_scale=gamma, order=order)
+        s = ex.stepper.KolmogorovFlowVorticity(2, L, N, dt, diffusivity=nu, drag=drag, convection_scale=b, injection_mode=kinj, injection_scale=gamma, order=order)
     else:
-        s = G.GeneralVorticityConvectionStepper(2, L, N, dt, linear_coefficients=(drag / 2, 0.0, nu), injection_mode=kinj, injection_scale=gamma, order=order)
-    u = ex.repeat(s, nsteps)(jnp.zeros((1, N, N)))
+        s = G.GeneralVorticityConvectionStepper(2, L, N, dt, linear_coefficients=(drag / 2, 0.0, nu), vorticity_convection_scale=b,
+                                                injection_mode=kinj, injection_scale=gamma, order=order)
     g = np.asarray(ex.make_grid(2, L, N))
+    k0 = 2 * np.pi * j0 / L
+    u = ex.repeat(s, nsteps)(jnp.asarray(a0 * np.cos(k0 * g[1:2]) + 0.0 * g[0:1]))
     kk = 2 * np.pi * kinj / L
     sigma = drag - nu * kk**2
     amp = (np.exp(sigma * nsteps * dt) - 1) / sigma
-    doc = -kk * gamma * np.cos(kk * g[1:2]) * amp
-    err = float(np.max(np.abs(np.asarray(u) - doc))) / (1e-300 + abs(kk * gamma * amp))
-    return err < 1e-9, f"{cls} N={N} L={L} k={kinj} gamma={gamma} order={order} n={nsteps}: relative deviation from the laminar solution {err:.3e}"
+    doc = -kk * gamma * np.cos(kk * g[1:2]) * amp + a0 * np.exp((drag - nu * k0**2) * nsteps * dt) * np.cos(k0 * g[1:2])
+    err = float(np.max(np.abs(np.asarray(u) - doc))) / (1e-300 + abs(kk * gamma * amp) + abs(a0))
+    return err < 1e-9, f"{cls} N={N} L={L} k={kinj} gamma={gamma} b={b} a0={a0} order={order} n={nsteps}: relative deviation from the laminar solution {err:.3e}"
 
 
 def t_laminar3d(N, L, kinj, gamma, order, nsteps, nu=0.05, drag=-0.1, dt=0.1):
@@ -110,6 +114,9 @@ def witness(ctx):
             for order in ((2, 4) if not deep else (1, 2, 3, 4)):
                 ctx.check("laminar2d", dict(cls=cls, N=N, L=L, kinj=kinj, gamma=0.7, order=order, nsteps=3))
         ctx.check("laminar2d", dict(cls=cls, N=12, L=3.0, kinj=2, gamma=-1.3, order=2, nsteps=1 if not deep else 7))
+        # convection scale != 1 and a non-zero laminar initial state: the forcing amplitude and the solution must not depend on b
+        for b, a0, j0 in ((2.5, 0.0, 1), (-1.0, 0.6, 1), (0.25, -0.4, 3)) if not deep else ((2.5, 0.0, 1), (-1.0, 0.6, 1), (0.25, -0.4, 3), (3.0, 1.1, 2), (1.0, 0.5, 2)):
+            ctx.check("laminar2d", dict(cls=cls, N=12, L=3.0, kinj=2, gamma=0.7, order=3, nsteps=2, b=b, a0=a0, j0=j0))
     for (N, L, kinj) in ([(8, 2 * np.pi, 1), (12, 3.0, 4), (9, 1.0, 2)] if not deep else [(8, 2 * np.pi, 1), (12, 3.0, 4), (9, 1.0, 2), (12, 5.0, 5), (10, 2.0, 3)]):
         for order in ((2, 4) if not deep else (1, 2, 3, 4)):
             ctx.check("laminar3d", dict(N=N, L=L, kinj=kinj, gamma=0.7, order=order, nsteps=2))
